@@ -30,7 +30,24 @@ func (ri RawInstruction) Assemble() (RawInstruction, error) { return ri, nil }
 
 // Disassemble parses ri into an Instruction and returns it. If ri is
 // not recognized by this package, ri itself is returned.
+//
+// A raw instruction that sets bits or fields its decoded form does not
+// use (so that assembling the decoded form would not reproduce ri) is
+// not recognized: it is returned as is rather than silently normalized.
 func (ri RawInstruction) Disassemble() Instruction {
+	ins := ri.disassemble()
+	if _, ok := ins.(RawInstruction); ok {
+		return ins
+	}
+	if raw, err := ins.Assemble(); err != nil || raw != ri {
+		return ri
+	}
+	return ins
+}
+
+// disassemble decodes ri by opcode class, ignoring the bits and fields
+// the decoded instruction does not use.
+func (ri RawInstruction) disassemble() Instruction {
 	switch ri.Op & opMaskCls {
 	case opClsLoadA, opClsLoadX:
 		reg := Register(ri.Op & opMaskLoadDest)
